@@ -39,11 +39,20 @@ func pairScenario(shape string, callers, reqs int, targetFirst bool, bound int, 
 // late: the target is started only after every caller has issued its first request (the callers are all queued
 // or parked on the request buffer by then: the driver sleeps, and virtual time advances at quiescence only).
 func pairScenarioX(shape string, callers, reqs int, targetFirst, late bool, bound int, delay bool) *vsched.Scenario {
+	return pairScenarioL(shape, callers, reqs, targetFirst, late, time.Millisecond, bound, delay)
+}
+
+// lateFor: how long the queued / parked callers wait before the target starts (1 ms, 3 s, 10 min of virtual time): a
+// request that was accepted is served however long the target took to get to it.
+func pairScenarioL(shape string, callers, reqs int, targetFirst, late bool, lateFor time.Duration, bound int, delay bool) *vsched.Scenario {
 	fam := "pairing-" + shape
 	total := callers * reqs
 	name := fmt.Sprintf("pairing/%s/callers%d/reqs%d/targetFirst=%v", shape, callers, reqs, targetFirst)
 	if late {
 		name += "/started-after-all-requests-are-queued"
+		if lateFor != time.Millisecond {
+			name += fmt.Sprintf("-and-%v-more", lateFor)
+		}
 	}
 	return &vsched.Scenario{
 		Name:  name,
@@ -77,7 +86,7 @@ func pairScenarioX(shape string, callers, reqs int, targetFirst, late bool, boun
 			}
 			if !targetFirst {
 				if late {
-					time.Sleep(time.Millisecond)
+					time.Sleep(lateFor)
 					vsched.Event("starting-late")
 				}
 				target.Start()
@@ -156,6 +165,103 @@ func pairScenarioX(shape string, callers, reqs int, targetFirst, late bool, boun
 }
 
 var tgt *fpgo.CorDef[int]
+
+// longLivedScenario: ONE target that has already served `warm` requests (one caller, one at a time) and then has three
+// callers outstanding at once: the pairing is the same at the 70000th request as at the first (a slot table or counter
+// inside the coroutine must not wrap). One execution (the default schedule): a smoke run over a very long history.
+func longLivedScenario(warm int) *vsched.Scenario {
+	fam := "long-lived-target"
+	return &vsched.Scenario{
+		Name:       fmt.Sprintf("pairing/echo/%d-requests-served-then-3-callers-at-once", warm),
+		Bound:      0,
+		FirstOnly:  true,
+		MaxSteps:   400000000,
+		MaxThreads: 100,
+		Body: func() {
+			var target *fpgo.CorDef[int]
+			wrongEcho := 0
+			target = fpgo.CorNewGenerics[int](func() {
+				y := -1
+				for i := 0; i < warm; i++ {
+					x := target.YieldRef(y)
+					if x != i {
+						wrongEcho++
+					}
+					y = x + 1
+				}
+				vsched.Event("warm", wrongEcho)
+				time.Sleep(time.Millisecond) // the three callers queue up meanwhile
+				for i := 0; i < 3; i++ {
+					x := target.YieldRef(y)
+					vsched.Event("target-saw", x)
+					y = x + 1
+				}
+			})
+			target.Start()
+			var first *fpgo.CorDef[int]
+			first = fpgo.CorNewGenerics[int](func() {
+				bad := 0
+				for i := 0; i < warm; i++ {
+					// the answer to request i is the y the target hands out with it: the previous x + 1 = i
+					want := i
+					if i == 0 {
+						want = -1 // the first YieldRef hands out the target's initial y
+					}
+					if v := first.YieldFrom(target, i); v != want {
+						bad++
+					}
+				}
+				vsched.Event("caller-warm", bad)
+				for c := 0; c < 3; c++ {
+					c := c
+					var me *fpgo.CorDef[int]
+					me = fpgo.CorNewGenerics[int](func() {
+						vsched.Event("answer", c, me.YieldFrom(target, 1000000*(c+1)))
+					})
+					me.Start()
+				}
+			})
+			first.Start()
+		},
+		Check: func(r *vsched.Result) []vsched.Failure {
+			fs := e1.Basic("C14", fam, r, nil)
+			if len(fs) > 0 {
+				return fs
+			}
+			if e1.Count(r, "warm", 0) != 1 || e1.Count(r, "caller-warm", 0) != 1 {
+				fs = append(fs, e1.Fail("C14|"+fam+"|warm-up", "%d sequential round trips: wrong x at the target or wrong answer at the caller (%v)", warm, r.Events))
+				return fs
+			}
+			// the answer to the request taken i-th is (the previous x taken) + 1; each caller's x reaches the target once
+			var seen []int
+			for _, e := range r.Events {
+				if e.Kind == "target-saw" {
+					seen = append(seen, e.Args[0].(int))
+				}
+			}
+			ok := len(seen) == 3
+			prev := warm - 1
+			for _, x := range seen {
+				c := x/1000000 - 1
+				if x%1000000 != 0 || c < 0 || c > 2 || e1.Count(r, "answer", c, prev+1) != 1 {
+					ok = false
+				}
+				prev = x
+			}
+			if !ok || e1.Count(r, "answer") != 3 {
+				fs = append(fs, e1.Fail("C14|"+fam+"|misrouted", "after %d served requests, three callers at once: the target saw %v, events %v", warm, seen, r.Events[len(r.Events)-min(len(r.Events), 8):]))
+			}
+			return fs
+		},
+	}
+}
+
+func min(a, b int) int {
+	if a < b {
+		return a
+	}
+	return b
+}
 
 // startWithVal: the initial value goes to the first YieldRef, also when a caller's request races
 // with the start.
@@ -480,7 +586,17 @@ func scenarios(tier string) []*vsched.Scenario {
 		pairScenario("echo", 3, 1, false, 3, true),
 		pairScenario("fixed", 7, 1, false, 1, true), // 7 pending requests at once (> buffer): delay bounding
 		pairScenarioX("fixed", 7, 1, false, true, 1, true), pairScenarioX("echo", 6, 1, false, true, 1, true), pairScenarioX("fixed", 2, 1, false, true, 1, true),
+		pairScenarioL("fixed", 7, 1, false, true, 3*time.Second, 1, true), pairScenarioL("echo", 6, 1, false, true, 10*time.Minute, 1, true), pairScenarioL("fixed", 2, 3, false, true, 3*time.Second, 1, true),
 		startWithValScenario(false, b), startWithValScenario(true, b), doNotationScenario(b), ioPayloadScenario(false, 0), ioPayloadScenario(true, 0), ioOnHandlerScenario(true, b), ioOnHandlerScenario(false, b), ctorScenario(1), payloadScenario(nil, 0), payloadScenario((*int)(nil), 0), payloadScenario(0, 0))
+	// the three callers arrive exactly when a counter of 8 / 15 / 16 bits inside the target would wrap
+	for _, w := range []int{300, 70000} {
+		out = append(out, longLivedScenario(w))
+	}
+	for _, p := range []int{1 << 8, 1 << 15, 1 << 16} {
+		for w := p - 4; w <= p+2; w++ {
+			out = append(out, longLivedScenario(w))
+		}
+	}
 	if tier == "thorough" {
 		out = append(out, pairScenario("accumulate", 2, 2, false, 1, false), pairScenario("fixed", 2, 2, true, 1, false), pairScenario("echo", 3, 1, false, 1, false), pairScenario("fixed", 3, 2, true, 3, true),
 			pairScenario("echo", 4, 1, false, 2, false), pairScenario("fixed", 8, 1, false, 2, true), pairScenario("accumulate", 7, 1, true, 2, true))
